@@ -677,6 +677,18 @@ fn apply_inner(pool: &mut Pool, kind: &str, op: &Json) -> Outcome {
             }
             out
         }
+        // the caller navigates and keeps what it finds: the children of a node as they are *now* become operands
+        // (only hand-written histories use this; a handle on a merged text node taken in mid-history is one of them)
+        "children" => {
+            let pi = pool.idx(&op["p"]);
+            let p = pool.nodes[pi].clone();
+            let origin = pool.origin[pi];
+            let kids: Vec<XmlNode> = p.child_nodes().iter().collect();
+            for k in kids {
+                pool.push(k, origin);
+            }
+            Outcome::Ok(String::new())
+        }
         "create_text" => {
             let (di, d) = doc_of(pool, &op["d"]);
             let v = d.create_text_node(&s("s"));
